@@ -24,7 +24,7 @@ COMPONENTS = c01.COMPONENTS
 ASSUMPTIONS = c01.ASSUMPTIONS + [
     "the cone is at least as fine as dds's signature inputs (DESIGN.md 4.1): equal fingerprints imply equal intended signatures; over-invalidation inside a cone is not detected",
 ]
-PROBES = ["stored_node_seen_again", "revert", "all_cached", "edit_outside_cone", "style_switch"]
+PROBES = ["stored_node_seen_again", "revert", "all_cached", "edit_outside_cone_then_eval", "style_switch", "driver_keep_entry"]
 
 PROFILE = {
     "feat": gen.swarm_feat,
@@ -51,6 +51,20 @@ def run_case(case):
     try:
         w = World(case, root)
         w.run()
+        # probes: an evaluation that follows an edit outside every cone / a switch of entry style for one entry
+        last_style = {}
+        pending_outside = False
+        for op in case["ops"]:
+            if op["op"] == "edit":
+                pending_outside = op["edit"]["kind"] in hist.OUTSIDE_EDITS
+            elif op["op"] == "eval":
+                if pending_outside:
+                    w.probe("edit_outside_cone_then_eval")
+                    pending_outside = False
+                st = op.get("style", "eval")
+                if op["entry"] in last_style and last_style[op["entry"]] != st:
+                    w.probe("style_switch")
+                last_style[op["entry"]] = st
         res = c01.finish(w, ORACLES)
         res["nontrivial"] = w.probes.get("stored_node_seen_again", 0) > 0
         return res
